@@ -35,18 +35,21 @@ theorem map_dec_enc (c : Codec α γ) (hc : c.Lossless) (l : List α) : (l.map c
 
 /-- Everything `compress_file` can do, by outcome (lossless codec). -/
 theorem compressFile_cases [DecidableEq α] (c : Codec α γ) (hc : c.Lossless) (s : Fs α γ) (fb : DataName)
-    (keep : Bool) (fault : Option Nat) :
-    let r := compressFile c s fb keep fault
+    (keep : Bool) (fault : Option Nat) (rf : Bool) :
+    let r := compressFile c s fb keep fault rf
     -- refused before anything is written
     (r = (s, fb, .err .assertion) ∧ (fb = .cbin ∨ s.bin = none ∨ s.bin = some [])) ∨
     -- interrupted after `j` chunks: only `x.cbin_tmp` differs
     (∃ l j, fb = .bin ∧ s.bin = some l ∧ l ≠ [] ∧ fault = some j ∧ j < l.length ∧
       r = ({ s with cbinTmp := some ((l.map c.enc).take j) }, fb, .err .fault)) ∨
     -- ran to completion
-    (∃ l, fb = .bin ∧ s.bin = some l ∧ l ≠ [] ∧
+    (∃ l, fb = .bin ∧ s.bin = some l ∧ l ≠ [] ∧ rf = false ∧
       r = ({ s with cbinTmp := none, ch := some (l.map c.enc), cbin := some (l.map c.enc),
                     bin := if keep then some l else none },
-           (if keep then .bin else .cbin), .ok)) := by
+           (if keep then .bin else .cbin), .ok)) ∨
+    -- all chunks, header and check done, the rename raised: `x.cbin_tmp` complete, `x.ch` written, nothing else
+    (∃ l, fb = .bin ∧ s.bin = some l ∧ l ≠ [] ∧ rf = true ∧
+      r = ({ s with cbinTmp := some (l.map c.enc), ch := some (l.map c.enc) }, fb, .err .osError)) := by
   intro r
   cases fb with
   | cbin => left; exact ⟨rfl, Or.inl rfl⟩
@@ -70,10 +73,17 @@ theorem compressFile_cases [DecidableEq α] (c : Codec α γ) (hc : c.Lossless) 
             right
             have hp := writeChunks_true _ _ _ hw
             subst hp
-            refine ⟨a :: t, rfl, rfl, by simp, ?_⟩
             have hchk : ((a :: t).map c.enc).map c.dec = a :: t := map_dec_enc c hc _
-            simp only [r, compressFile, hb, hw, hchk, ne_eq, not_true_eq_false, if_false]
-            cases keep <;> simp
+            cases rf with
+            | false =>
+              left
+              refine ⟨a :: t, rfl, rfl, by simp, rfl, ?_⟩
+              simp only [r, compressFile, hb, hw, hchk, ne_eq, not_true_eq_false, if_false]
+              cases keep <;> simp
+            | true =>
+              right
+              refine ⟨a :: t, rfl, rfl, by simp, rfl, ?_⟩
+              simp only [r, compressFile, hb, hw, hchk, ne_eq, not_true_eq_false, if_false, if_true]
 
 /-! ### `decompress_file` -/
 
@@ -127,8 +137,8 @@ theorem decompressFile_cases [DecidableEq γ] (c : Codec α γ) (s : Fs α γ) (
 
 /-- Everything `decompress_to_scratch` can do, by outcome. -/
 theorem toScratch_cases [DecidableEq γ] (c : Codec α γ) (s : Fs α γ) (fb : DataName) (scratch : Bool)
-    (fault : Option Nat) :
-    let r := toScratch c s fb scratch fault
+    (fault : Option Nat) (mf : Bool) :
+    let r := toScratch c s fb scratch fault mf
     let s0 : Fs α γ := if scratch then { s with smeta := true } else s
     -- the decompressed file is already there
     (r = (s0, .ok) ∧ (if scratch then s.sbin else s.bin).isSome) ∨
@@ -140,9 +150,13 @@ theorem toScratch_cases [DecidableEq γ] (c : Codec α γ) (s : Fs α γ) (fb : 
       r = ((if scratch then { s0 with sbinTemp := some ((cs.map c.dec).take j) }
             else { s0 with binTemp := some ((cs.map c.dec).take j) }), .err .fault)) ∨
     -- ran to completion: temporary file moved to the final name
-    (∃ cs, fb = .cbin ∧ s.cbin = some cs ∧ s.ch = some cs ∧ (if scratch then s.sbin else s.bin) = none ∧
+    (∃ cs, fb = .cbin ∧ s.cbin = some cs ∧ s.ch = some cs ∧ (if scratch then s.sbin else s.bin) = none ∧ mf = false ∧
       r = ((if scratch then { s0 with sbin := some (cs.map c.dec), sbinTemp := none }
-            else { s0 with bin := some (cs.map c.dec), binTemp := none }), .ok)) := by
+            else { s0 with bin := some (cs.map c.dec), binTemp := none }), .ok)) ∨
+    -- decompressed completely, the move raised: the temporary file stays (complete), nothing is published
+    (∃ cs, fb = .cbin ∧ s.cbin = some cs ∧ s.ch = some cs ∧ (if scratch then s.sbin else s.bin) = none ∧ mf = true ∧
+      r = ((if scratch then { s0 with sbinTemp := some (cs.map c.dec) }
+            else { s0 with binTemp := some (cs.map c.dec) }), .err .osError)) := by
   intro r s0
   cases scratch with
   | true =>
@@ -158,8 +172,12 @@ theorem toScratch_cases [DecidableEq γ] (c : Codec α γ) (s : Fs α γ) (fb : 
         simp [r, s0, toScratch, hsb, hr]
       · right; left; refine ⟨cs, j, hfb, hcb, hch, hf, hj, by simp, ?_⟩
         simp [r, s0, toScratch, hsb, hr, Fs.setOut]
-      · right; right; refine ⟨cs, hfb, hcb, hch, by simp, ?_⟩
-        simp [r, s0, toScratch, hsb, hr, Fs.setOut]
+      · right; right
+        cases mf with
+        | false => left; refine ⟨cs, hfb, hcb, hch, by simp, rfl, ?_⟩
+                   simp [r, s0, toScratch, hsb, hr, Fs.setOut]
+        | true => right; refine ⟨cs, hfb, hcb, hch, by simp, rfl, ?_⟩
+                  simp [r, s0, toScratch, hsb, hr, Fs.setOut]
   | false =>
     cases hsb : s.bin with
     | some v => left; simp [r, s0, toScratch, hsb]
@@ -173,8 +191,12 @@ theorem toScratch_cases [DecidableEq γ] (c : Codec α γ) (s : Fs α γ) (fb : 
         simp [r, s0, toScratch, hsb, hr]
       · right; left; refine ⟨cs, j, hfb, hcb, hch, hf, hj, by simp, ?_⟩
         simp [r, s0, toScratch, hsb, hr, Fs.setOut]
-      · right; right; refine ⟨cs, hfb, hcb, hch, by simp, ?_⟩
-        simp [r, s0, toScratch, hsb, hr, Fs.setOut]
+      · right; right
+        cases mf with
+        | false => left; refine ⟨cs, hfb, hcb, hch, by simp, rfl, ?_⟩
+                   simp [r, s0, toScratch, hsb, hr, Fs.setOut]
+        | true => right; refine ⟨cs, hfb, hcb, hch, by simp, rfl, ?_⟩
+                  simp [r, s0, toScratch, hsb, hr, Fs.setOut]
 
 /-! ### Opening a reader -/
 
@@ -195,21 +217,29 @@ theorem openReader_cbin_of (s : Fs α γ) (hb : s.bin = none) (hc : s.cbin.isSom
 
 /-! ### Invariants -/
 
-/-- `Published` is preserved by every call in scope, with or without a fault. -/
+/-- `Published` is preserved by every call in scope, with or without a fault (at a chunk, or at the publishing rename / move). -/
 theorem published_step [DecidableEq α] [DecidableEq γ] (c : Codec α γ) (hc : c.Lossless) (b : List α)
     (s : Fs α γ) (o : Op) (hs : Published c b s) (ho : o.inScope) : Published c b (step c s o).1 := by
   cases o with
-  | compress fb keep fault =>
-    have h := compressFile_cases c hc s fb keep fault
+  | compress fb keep fault rf =>
+    have h := compressFile_cases c hc s fb keep fault rf
     simp only at h
     simp only [step]
-    rcases h with ⟨hr, _⟩ | ⟨l, j, _, _, _, _, _, hr⟩ | ⟨l, _, hl, _, hr⟩
+    rcases h with ⟨hr, _⟩ | ⟨l, j, _, _, _, _, _, hr⟩ | ⟨l, _, hl, _, _, hr⟩ | ⟨l, _, hl, _, _, hr⟩
     · rw [hr]; exact hs
     · rw [hr]; exact ⟨hs.bin, hs.cbin, hs.ch, hs.hdr, hs.sbin, hs.held⟩
     · rw [hr]
       have : l = b := by rcases hs.bin with h | h <;> simp_all
       subst this
       constructor <;> cases keep <;> simp [hs.sbin]
+    · rw [hr]
+      have : l = b := by rcases hs.bin with h | h <;> simp_all
+      subst this
+      refine ⟨hs.bin, hs.cbin, Or.inr rfl, ?_, hs.sbin, Or.inl hl⟩
+      intro hsome
+      rcases hs.cbin with h | h
+      · simp [h] at hsome
+      · simp [h]
   | decompress fb keep overwrite fault =>
     have hf : fault = none := ho
     subst hf
@@ -224,11 +254,12 @@ theorem published_step [DecidableEq α] [DecidableEq γ] (c : Codec α γ) (hc :
       subst this
       have hb := map_dec_enc c hc b
       constructor <;> cases keep <;> simp [Fs.setOut, hb, hcb, hch, hs.sbin]
-  | toScratch fb scratch fault =>
-    have h := toScratch_cases c s fb scratch fault
+  | toScratch fb scratch fault mf =>
+    have h := toScratch_cases c s fb scratch fault mf
     simp only at h
     simp only [step]
-    rcases h with ⟨hr, _⟩ | ⟨e, _, hr, _⟩ | ⟨cs, j, _, _, _, _, _, _, hr⟩ | ⟨cs, _, hcb, hch, hno, hr⟩
+    rcases h with ⟨hr, _⟩ | ⟨e, _, hr, _⟩ | ⟨cs, j, _, _, _, _, _, _, hr⟩ | ⟨cs, _, hcb, hch, hno, _, hr⟩ |
+      ⟨cs, _, _, _, _, _, hr⟩
     · rw [hr]; cases scratch <;> exact ⟨hs.bin, hs.cbin, hs.ch, hs.hdr, hs.sbin, hs.held⟩
     · rw [hr]; cases scratch <;> exact ⟨hs.bin, hs.cbin, hs.ch, hs.hdr, hs.sbin, hs.held⟩
     · rw [hr]; cases scratch <;> exact ⟨hs.bin, hs.cbin, hs.ch, hs.hdr, hs.sbin, hs.held⟩
@@ -239,6 +270,7 @@ theorem published_step [DecidableEq α] [DecidableEq γ] (c : Codec α γ) (hc :
       cases scratch
       · exact ⟨by simp [hb], hs.cbin, hs.ch, hs.hdr, hs.sbin, by simp [hb]⟩
       · exact ⟨hs.bin, hs.cbin, hs.ch, hs.hdr, by simp [hb], hs.held⟩
+    · rw [hr]; cases scratch <;> exact ⟨hs.bin, hs.cbin, hs.ch, hs.hdr, hs.sbin, hs.held⟩
 
 /-- `Published` holds after any sequence of calls in scope. -/
 theorem published_run [DecidableEq α] [DecidableEq γ] (c : Codec α γ) (hc : c.Lossless) (b : List α)
@@ -260,7 +292,7 @@ theorem published_initCbin (c : Codec α γ) (b : List α) : Published c b (init
 
 theorem versioned_of_published (c : Codec α γ) (b : List α) (s : Fs α γ) (h : Published c b s) :
     Versioned c { fs := s, versions := [b], cur := b } := by
-  refine ⟨by simp, h.bin, ?_, h.hdr, ?_, h.held⟩
+  refine ⟨by simp, h.bin, ?_, ?_, h.held⟩
   · rcases h.cbin with h1 | h1
     · exact Or.inl h1
     · exact Or.inr ⟨b, by simp, h1⟩
@@ -268,13 +300,14 @@ theorem versioned_of_published (c : Codec α γ) (b : List α) (s : Fs α γ) (h
     · exact Or.inl h1
     · exact Or.inr ⟨b, by simp, h1⟩
 
-/-- `Versioned` is preserved by every rewrite of `x.bin` and every call in scope, with or without a fault. -/
+/-- `Versioned` is preserved by every rewrite of `x.bin` and every call in scope, with or without a fault
+(at a chunk, or at the publishing rename / move). -/
 theorem versioned_step [DecidableEq α] [DecidableEq γ] (c : Codec α γ) (hc : c.Lossless)
     (g : Hist α γ) (e : Event α) (hg : Versioned c g) (he : e.inScope) : Versioned c (stepE c g e) := by
   cases e with
   | rewrite l =>
     simp only [stepE]
-    refine ⟨by simp, Or.inr rfl, ?_, hg.hdr, ?_, Or.inl rfl⟩
+    refine ⟨by simp, Or.inr rfl, ?_, ?_, Or.inl rfl⟩
     · rcases hg.cbin with h1 | ⟨v, hv, h1⟩
       · exact Or.inl h1
       · exact Or.inr ⟨v, by simp [hv], h1⟩
@@ -283,19 +316,24 @@ theorem versioned_step [DecidableEq α] [DecidableEq γ] (c : Codec α γ) (hc :
       · exact Or.inr ⟨v, by simp [hv], h1⟩
   | call o =>
     cases o with
-    | compress fb keep fault =>
-      have h := compressFile_cases c hc g.fs fb keep fault
+    | compress fb keep fault rf =>
+      have h := compressFile_cases c hc g.fs fb keep fault rf
       simp only at h
       simp only [stepE, step]
-      rcases h with ⟨hr, _⟩ | ⟨l, j, _, _, _, _, _, hr⟩ | ⟨l, _, hl, _, hr⟩
-      · rw [hr]; exact ⟨hg.cur_mem, hg.bin, hg.cbin, hg.hdr, hg.sbin, hg.held⟩
-      · rw [hr]; exact ⟨hg.cur_mem, hg.bin, hg.cbin, hg.hdr, hg.sbin, hg.held⟩
+      rcases h with ⟨hr, _⟩ | ⟨l, j, _, _, _, _, _, hr⟩ | ⟨l, _, hl, _, _, hr⟩ | ⟨l, _, hl, _, _, hr⟩
+      · rw [hr]; exact ⟨hg.cur_mem, hg.bin, hg.cbin, hg.sbin, hg.held⟩
+      · rw [hr]; exact ⟨hg.cur_mem, hg.bin, hg.cbin, hg.sbin, hg.held⟩
       · rw [hr]
         have : l = g.cur := by rcases hg.bin with h | h <;> simp_all
         subst this
-        refine ⟨hg.cur_mem, ?_, Or.inr ⟨g.cur, hg.cur_mem, rfl⟩, by simp, hg.sbin, ?_⟩
+        refine ⟨hg.cur_mem, ?_, Or.inr ⟨g.cur, hg.cur_mem, rfl⟩, hg.sbin, ?_⟩
         · cases keep <;> simp
         · cases keep <;> simp
+      · -- the rename raised: x.bin untouched, so the current content is still held by it
+        rw [hr]
+        have : l = g.cur := by rcases hg.bin with h | h <;> simp_all
+        subst this
+        exact ⟨hg.cur_mem, hg.bin, hg.cbin, hg.sbin, Or.inl hl⟩
     | decompress fb keep overwrite fault =>
       have hf : fault = none := he
       subst hf
@@ -303,7 +341,7 @@ theorem versioned_step [DecidableEq α] [DecidableEq γ] (c : Codec α γ) (hc :
       simp only at h
       simp only [stepE, step]
       rcases h with ⟨e, _, hr⟩ | ⟨cs, j, _, _, _, hf, _, _⟩ | ⟨cs, _, hcb, hch, _, hr⟩
-      · rw [hr]; exact ⟨hg.cur_mem, hg.bin, hg.cbin, hg.hdr, hg.sbin, hg.held⟩
+      · rw [hr]; exact ⟨hg.cur_mem, hg.bin, hg.cbin, hg.sbin, hg.held⟩
       · simp at hf
       · rw [hr]
         obtain ⟨v, hv, hcs⟩ : ∃ v ∈ g.versions, cs = v.map c.enc := by
@@ -314,17 +352,18 @@ theorem versioned_step [DecidableEq α] [DecidableEq γ] (c : Codec α γ) (hc :
         have hb := map_dec_enc c hc v
         cases keep
         · simp only [Fs.setOut, hb]
-          exact ⟨hv, Or.inr rfl, Or.inl rfl, by simp, hg.sbin, Or.inl rfl⟩
+          exact ⟨hv, Or.inr rfl, Or.inl rfl, hg.sbin, Or.inl rfl⟩
         · simp only [Fs.setOut, hb, if_true]
-          exact ⟨hv, Or.inr rfl, Or.inr ⟨v, hv, hcb⟩, by simp [hcb, hch], hg.sbin, Or.inl rfl⟩
-    | toScratch fb scratch fault =>
-      have h := toScratch_cases c g.fs fb scratch fault
+          exact ⟨hv, Or.inr rfl, Or.inr ⟨v, hv, hcb⟩, hg.sbin, Or.inl rfl⟩
+    | toScratch fb scratch fault mf =>
+      have h := toScratch_cases c g.fs fb scratch fault mf
       simp only at h
       simp only [stepE, step]
-      rcases h with ⟨hr, _⟩ | ⟨e, _, hr, _⟩ | ⟨cs, j, _, _, _, _, _, _, hr⟩ | ⟨cs, _, hcb, hch, hno, hr⟩
-      · rw [hr]; cases scratch <;> exact ⟨hg.cur_mem, hg.bin, hg.cbin, hg.hdr, hg.sbin, hg.held⟩
-      · rw [hr]; cases scratch <;> exact ⟨hg.cur_mem, hg.bin, hg.cbin, hg.hdr, hg.sbin, hg.held⟩
-      · rw [hr]; cases scratch <;> exact ⟨hg.cur_mem, hg.bin, hg.cbin, hg.hdr, hg.sbin, hg.held⟩
+      rcases h with ⟨hr, _⟩ | ⟨e, _, hr, _⟩ | ⟨cs, j, _, _, _, _, _, _, hr⟩ | ⟨cs, _, hcb, hch, hno, _, hr⟩ |
+        ⟨cs, _, _, _, _, _, hr⟩
+      · rw [hr]; cases scratch <;> exact ⟨hg.cur_mem, hg.bin, hg.cbin, hg.sbin, hg.held⟩
+      · rw [hr]; cases scratch <;> exact ⟨hg.cur_mem, hg.bin, hg.cbin, hg.sbin, hg.held⟩
+      · rw [hr]; cases scratch <;> exact ⟨hg.cur_mem, hg.bin, hg.cbin, hg.sbin, hg.held⟩
       · rw [hr]
         obtain ⟨v, hv, hcs⟩ : ∃ v ∈ g.versions, cs = v.map c.enc := by
           rcases hg.cbin with h | ⟨v, hv, h⟩
@@ -342,9 +381,10 @@ theorem versioned_step [DecidableEq α] [DecidableEq γ] (c : Codec α γ) (hc :
               have := congrArg (List.map c.dec) (Option.some.inj h)
               rwa [map_dec_enc c hc, map_dec_enc c hc] at this
           subst hcur
-          exact ⟨hg.cur_mem, by simp [hb], hg.cbin, hg.hdr, hg.sbin, by simp [hb]⟩
+          exact ⟨hg.cur_mem, by simp [hb], hg.cbin, hg.sbin, by simp [hb]⟩
         · simp only [if_true]
-          exact ⟨hg.cur_mem, hg.bin, hg.cbin, hg.hdr, Or.inr ⟨v, hv, by simp [hb]⟩, hg.held⟩
+          exact ⟨hg.cur_mem, hg.bin, hg.cbin, Or.inr ⟨v, hv, by simp [hb]⟩, hg.held⟩
+      · rw [hr]; cases scratch <;> exact ⟨hg.cur_mem, hg.bin, hg.cbin, hg.sbin, hg.held⟩
 
 theorem versioned_run [DecidableEq α] [DecidableEq γ] (c : Codec α γ) (hc : c.Lossless)
     (evs : List (Event α)) : ∀ (g : Hist α γ), Versioned c g → (∀ e ∈ evs, e.inScope) → Versioned c (runE c g evs) := by
@@ -355,21 +395,25 @@ theorem versioned_run [DecidableEq α] [DecidableEq γ] (c : Codec α γ) (hc : 
     simp only [runE]
     exact ih _ (versioned_step c hc g e hg (he e (by simp))) (fun e' h' => he e' (by simp [h']))
 
-/-- The header always describes the compressed file next to it — for EVERY call and every fault
-(including faults inside the plain `decompress_file`), so `Err.corruptHeader` is unreachable. -/
+/-- The header always describes the compressed file next to it — for EVERY call and every chunk fault (including
+faults inside the plain `decompress_file`) and every rewrite of `x.bin`, as long as no rename of `compress_file`
+fails (`renameOk`); then `Err.corruptHeader` is unreachable. -/
 def HdrOk (s : Fs α γ) : Prop := ∀ cs, s.cbin = some cs → s.ch = some cs
 
 theorem hdrOk_step [DecidableEq α] [DecidableEq γ] (c : Codec α γ) (hc : c.Lossless)
-    (s : Fs α γ) (o : Op) (hs : HdrOk s) : HdrOk (step c s o).1 := by
+    (s : Fs α γ) (o : Op) (hs : HdrOk s) (ho : o.renameOk) : HdrOk (step c s o).1 := by
   cases o with
-  | compress fb keep fault =>
-    have h := compressFile_cases c hc s fb keep fault
+  | compress fb keep fault rf =>
+    have hrf : rf = false := ho
+    subst hrf
+    have h := compressFile_cases c hc s fb keep fault false
     simp only at h
     simp only [step]
-    rcases h with ⟨hr, _⟩ | ⟨l, j, _, _, _, _, _, hr⟩ | ⟨l, _, hl, _, hr⟩
+    rcases h with ⟨hr, _⟩ | ⟨l, j, _, _, _, _, _, hr⟩ | ⟨l, _, hl, _, _, hr⟩ | ⟨l, _, _, _, hrf, _⟩
     · rw [hr]; exact hs
     · rw [hr]; exact hs
     · rw [hr]; intro cs h; simp at h; simp [h]
+    · simp at hrf
   | decompress fb keep overwrite fault =>
     have h := decompressFile_cases c s fb keep .bin overwrite fault
     simp only at h
@@ -380,17 +424,32 @@ theorem hdrOk_step [DecidableEq α] [DecidableEq γ] (c : Codec α γ) (hc : c.L
     · rw [hr]; cases keep
       · intro cs' h; simp [Fs.setOut] at h
       · exact hs
-  | toScratch fb scratch fault =>
-    have h := toScratch_cases c s fb scratch fault
+  | toScratch fb scratch fault mf =>
+    have h := toScratch_cases c s fb scratch fault mf
     simp only at h
     simp only [step]
-    rcases h with ⟨hr, _⟩ | ⟨e, _, hr, _⟩ | ⟨cs, j, _, _, _, _, _, _, hr⟩ | ⟨cs, _, hcb, hch, hno, hr⟩ <;>
+    rcases h with ⟨hr, _⟩ | ⟨e, _, hr, _⟩ | ⟨cs, j, _, _, _, _, _, _, hr⟩ | ⟨cs, _, hcb, hch, hno, _, hr⟩ |
+      ⟨cs, _, _, _, _, _, hr⟩ <;>
       (rw [hr]; cases scratch <;> exact hs)
 
 theorem hdrOk_run [DecidableEq α] [DecidableEq γ] (c : Codec α γ) (hc : c.Lossless)
-    (ops : List Op) : ∀ (s : Fs α γ), HdrOk s → HdrOk (run c s ops) := by
+    (ops : List Op) : ∀ (s : Fs α γ), HdrOk s → (∀ o ∈ ops, o.renameOk) → HdrOk (run c s ops) := by
   induction ops with
-  | nil => intro s hs; exact hs
-  | cons o os ih => intro s hs; exact ih _ (hdrOk_step c hc s o hs)
+  | nil => intro s hs _; exact hs
+  | cons o os ih =>
+    intro s hs ho
+    exact ih _ (hdrOk_step c hc s o hs (ho o (by simp))) (fun o' h' => ho o' (by simp [h']))
+
+theorem hdrOk_runE [DecidableEq α] [DecidableEq γ] (c : Codec α γ) (hc : c.Lossless)
+    (evs : List (Event α)) : ∀ (g : Hist α γ), HdrOk g.fs → (∀ e ∈ evs, e.renameOk) → HdrOk (runE c g evs).fs := by
+  induction evs with
+  | nil => intro g hg _; exact hg
+  | cons e es ih =>
+    intro g hg he
+    simp only [runE]
+    refine ih _ ?_ (fun e' h' => he e' (by simp [h']))
+    cases e with
+    | rewrite l => exact hg
+    | call o => exact hdrOk_step c hc g.fs o hg (he (.call o) (by simp))
 
 end IblVerif.FsCompress
